@@ -1,6 +1,7 @@
 //! Correspondence harness for taskchampion-sync-server: runs the implementation built from
 //! /repo's current working tree on generated inputs and prints canonical traces that are
 //! compared with the extracted Coq model (see /verif/DESIGN.md section 4).
+mod bin;
 mod canon;
 mod http;
 mod l1;
@@ -18,6 +19,7 @@ fn main() {
             };
             l1::main_lib(b, seed);
         }
+        Some("bin") => bin::main_bin(seed),
         Some("http") => {
             let b = match args.get(2).map(|s| s.as_str()) {
                 Some("sqlite") => l1::Backend::Sqlite,
